@@ -15,6 +15,9 @@ K_PROC, K_BUF, K_OBJQ, K_SAMP, K_FLIP, K_LOG, K_MEMO, K_TIE, K_LOGKEEP, K_POLLUT
     0x1, 0x2, 0x4, 0x8, 0x10, 0x20, 0x40, 0x80, 0x100, 0x200, 0x800
 # seed designs: all trials share one seed / seeds repeat with period 3 / odd trials call cmb_random_terminate()
 K_SAMESEED, K_SEED3, K_TERM = 0x400, 0x1000, 0x2000
+# memoised samplers with keys equal to / 1 ulp from / far from those of the neighbouring trials
+K_ULP = 0x4000
+MEMO_FUNCTIONS_EXERCISED = ("cmb_random_std_gamma", "cmb_random_geometric")
 ALL_SIM = K_PROC | K_BUF | K_OBJQ | K_SAMP | K_LOG | K_MEMO
 SIZES = [64, 65, 71, 72, 104, 257, 4104]
 CORES = os.cpu_count() or 4
@@ -173,6 +176,9 @@ def generate(seed, count, flips_ok):
             # half of those have trials that call cmb_random_terminate()
             if k % 4 == 1:
                 kinds |= (K_SAMESEED if (k // 4) % 2 == 0 else K_SEED3) | (K_TERM if (k // 8) % 2 == 0 else 0)
+            # every third experiment draws from the memoised samplers with neighbouring keys (equal / 1 ulp apart / far apart)
+            if k % 3 == 2:
+                kinds |= K_ULP
             # a handful of experiment seeds so that sequential references are shared
             eseed = 1 + (seed * 31 + rng.randrange(4)) % 1000003
             out.append(Scenario("par", W, n, size, eseed, pat, dmax, kinds))
@@ -204,6 +210,8 @@ def generate_groups(seed, count, flips_ok):
         else:
             ns = [n1, 5 * n1 + 2 * Weff + 3, n1 + 1]
         kinds = kinds_pool[k % len(kinds_pool)]
+        if kinds and k % 4 == 2:
+            kinds |= K_ULP
         if kinds and k % 3 == 1:
             kinds |= (K_SAMESEED if (k // 3) % 2 == 0 else K_SEED3) | (K_TERM if (k // 6) % 2 == 0 else 0)
         eseed = 1 + (seed * 37 + rng.randrange(3)) % 1000003
